@@ -263,7 +263,10 @@ class NumInterp(Interp):
         import cmath as _cmath
         self.mathfuncs = {'math': {k: getattr(_math, k) for k in ('pi', 'cos', 'sin', 'sqrt', 'floor', 'ceil', 'e', 'exp', 'tau', 'atan2', 'acos', 'asin')},
                           'cmath': {k: getattr(_cmath, k) for k in ('exp', 'sqrt', 'pi', 'phase', 'cos', 'sin')}}
-        self.builtins = {'range': range, 'len': len, 'list': list, 'tuple': tuple, 'enumerate': enumerate, 'sum': sum,
+        import textwrap as _tw, itertools as _it, json as _json
+        self.stdlib = {'textwrap': _tw, 'itertools': _it, 'json': _json}     # pure standard-library helpers may be called
+        self.builtins = {'chr': chr, 'ord': ord, 'str': str, 'sorted': sorted, 'reversed': reversed, 'set': set, 'any': any, 'all': all, 'dict': dict, 'bool': bool,
+                         'range': range, 'len': len, 'list': list, 'tuple': tuple, 'enumerate': enumerate, 'sum': sum,
                          'int': int, 'float': float, 'complex': complex, 'abs': abs, 'max': max, 'min': min, 'zip': zip}
 
     def ev(self, n):
@@ -279,6 +282,20 @@ class NumInterp(Interp):
             raise Unsupported(f'{n.value.id}.{n.attr} not in the whitelist')
         if isinstance(n, (ast.ListComp, ast.GeneratorExp)):
             return self._comp(n, 0, [])
+        if isinstance(n, ast.JoinedStr):
+            parts = []
+            for v in n.values:
+                if isinstance(v, ast.Constant):
+                    parts.append(str(v.value))
+                elif isinstance(v, ast.FormattedValue):
+                    val = self.ev(v.value)
+                    if v.conversion == 114:
+                        val = repr(val)
+                    spec = self.ev(v.format_spec) if v.format_spec is not None else ''
+                    parts.append(format(val, spec))
+            return ''.join(parts)
+        if isinstance(n, ast.Attribute) and isinstance(n.value, ast.Name) and n.value.id in self.stdlib and n.value.id not in self.env:
+            return getattr(self.stdlib[n.value.id], n.attr)
         if isinstance(n, ast.Dict):
             out = {}
             for k, v in zip(n.keys, n.values):
@@ -316,6 +333,14 @@ class NumInterp(Interp):
                     else:
                         raise Unsupported(f'isinstance against {ts}')
                 return res
+            if isinstance(n.func, ast.Attribute) and n.func.attr in ('join', 'split', 'startswith', 'endswith', 'strip', 'items', 'keys', 'values', 'get', 'index', 'count', 'upper', 'lower', 'format', 'replace'):
+                try:
+                    recv = self.ev(n.func.value)
+                except Unsupported:
+                    recv = None
+                if isinstance(recv, (str, list, tuple, dict)):
+                    args = [self.ev(a) for a in n.args]
+                    return getattr(recv, n.func.attr)(*args)
             if isinstance(n.func, ast.Attribute) and n.func.attr == 'append':
                 recv = self.ev(n.func.value)
                 if isinstance(recv, list):
